@@ -84,7 +84,22 @@ func init() {
 		var sb strings.Builder
 		sb.WriteString("namespace Litestream.Gen.StateWrites\n\n/-- (function, left-hand side, right-hand side) of every write to the in-memory sync state, in file and source order -/\ndef writes : List (String × String × String) := [\n  ")
 		sb.WriteString(strings.Join(out, ",\n  "))
-		sb.WriteString("\n]\n\nend Litestream.Gen.StateWrites\n")
+		sb.WriteString("\n]\n\n")
+		// run-time recovery of the local state (repair of F3): where the pending flag is set and consumed
+		var rec [][2]string
+		for _, fn := range []string{"ResetLocalState", "newSyncExecutor", "init"} {
+			fd, err := p.funcDecl("DB", fn)
+			if err != nil {
+				return "", err
+			}
+			for _, st := range guardedCalls(c, fd, map[string]bool{"checkDatabaseBehindReplica": true, "Store": true}, false) {
+				if strings.HasPrefix(st[0], "Store(") {
+					st[0] = "baselinePending." + st[0]
+				}
+				rec = append(rec, [2]string{fn + ": " + st[0], st[1]})
+			}
+		}
+		sb.WriteString("/-- (function: call, guard) — where the baseline is (re-)established from the replica and where the pending flag is set and cleared -/\ndef recovery : List (String × String) := " + leanStrPairs(rec) + "\n\nend Litestream.Gen.StateWrites\n")
 		return sb.String(), nil
 	}
 }
